@@ -25,6 +25,7 @@ type LoopSpec struct {
 	Invs        []*Clause
 	Decreases   *Clause
 	IterEnsures []*Clause // checked at the end of every iteration; it(e) is e at the start of the iteration
+	Name        string    // loops addressed by name (label, or loopname binding) instead of by ordinal
 }
 
 // LockInv is one clause of a monitor invariant.
@@ -47,6 +48,7 @@ type Contract struct {
 	HasModifies bool
 	Loops    map[int]*LoopSpec
 	NamedLoops map[string]*LoopSpec
+	RangeNames map[string]string // source text of a ranged expression -> loop name (loopname directive)
 	Pure     bool
 	AcqAssumes []*Clause // assumed at every lock acquisition of the function (stated environment assumption)
 	PureDef  *Clause // explicit definition of a pure function
@@ -379,6 +381,17 @@ func (p *Prog) loadContractFile(path string) error {
 			cur.CallSites[m[1]] = append(cur.CallSites[m[1]], c)
 			pending = append(pending, c)
 			lastClause = c
+		case strings.HasPrefix(line, "loopname "):
+			// loopname <name>: range <expr>   -- the for-range statement over <expr> is addressed as "loop <name>:"
+			// (robust against loops being added or removed elsewhere in the function)
+			m := regexp.MustCompile(`^loopname\s+(\w+)\s*:\s*range\s+(.*)$`).FindStringSubmatch(line)
+			if m == nil {
+				return fmt.Errorf("%s:%d: bad loopname directive", path, lineNo)
+			}
+			if cur.RangeNames == nil {
+				cur.RangeNames = map[string]string{}
+			}
+			cur.RangeNames[strings.ReplaceAll(m[2], " ", "")] = m[1]
 		case strings.HasPrefix(line, "loop "):
 			m := reLoop.FindStringSubmatch(line)
 			if m == nil {
@@ -403,7 +416,7 @@ func (p *Prog) loadContractFile(path string) error {
 				}
 				ls = cur.NamedLoops[m[1]]
 				if ls == nil {
-					ls = &LoopSpec{}
+					ls = &LoopSpec{Name: m[1]}
 					cur.NamedLoops[m[1]] = ls
 				}
 			}
